@@ -22,7 +22,7 @@ def adjustments(R, rep):
     F = R.F
     pre = R.require("prepass")
     rg = R.region(pre)
-    writers = {w[0].id for w in R.field_writes(LOT, "cost_offset") if w[2] != "construct"}
+    writers = {w[0].parent or w[0].id for w in R.field_writes(LOT, "cost_offset") if w[2] != "construct"}
     calls = [it for it in rg.items if it["term"]["callee"] in writers and "AcquisitionLedger::" in it["term"]["callee"]]
     if not calls:
         rep.unresolved("R1", "APPORTION", "the pre-pass (with its helpers) does not call a method that writes lot.cost_offset")
@@ -157,7 +157,7 @@ def order_and_who(R, rep, appo):
     else:
         rep.unresolved("R3", "prepass-phases", "pre-pass lacks add_acquisition or the apportioning call")
     ws = [w for w in R.field_writes(LOT, "cost_offset") if w[2] != "construct"]
-    writers = {w[0].id for w in ws}
+    writers = {w[0].parent or w[0].id for w in ws}
     rep.ob("R4", "cost_offset:writers", writers == {appo}, f"lot.cost_offset is written only by {appo.split('::')[-1]}" if writers == {appo} else
            f"lot.cost_offset is written by {sorted(x.split('::', 1)[-1] for x in writers)}", ws[0][3] if ws else "", key="R4:cost_offset:writers")
     callers = {(b.parent or b.id) for b, i, t in F.call_sites(lambda c: c == appo)}
@@ -165,8 +165,9 @@ def order_and_who(R, rep, appo):
     rep.ob("R4", "apportion:callers", ok_callers, "the apportioning method is called only from the cost pre-pass (and its helpers)" if ok_callers else
            f"apportioning is called from {sorted(x.split('::', 1)[-1] for x in callers)}", "", key="R4:apportion:callers")
     ab = F.bodies[appo]
+    arg = R.region(ab, depth=1)
     for w in ws:
-        rhs = w[4]
+        rhs = arg.convs.get(w[0].id, lambda t_: t_)(w[4])    # a write inside a closure: captures → the method's own terms
         okf = isinstance(rhs, tuple) and rhs[0] == "*" and any(x == ("param", 1, ab.local_name(2)) for x in rhs[1]) and \
             any(isinstance(x, tuple) and x[0] == "/" for x in rhs[1])
         rep.ob("R4", "apportion:formula", okf, "each lot receives adjustment × (its held shares ÷ total held)" if okf else
